@@ -110,14 +110,18 @@ class ScriptedRng:
         import numpy as np
         if size is None:
             v = self._next('random')
-            return v[0] if v is not None else self.fallback.random()
+            return v[0] if v is not None else (0.0 if self.fallback.random() < 0.2 else self.fallback.random())
         v = self._next('random_array')
         if v is not None:
             arr = np.array(v, dtype=float)
             if arr.shape == tuple(size):
                 return arr
             self.deviated = True
-        return np.array([[self.fallback.random() for _ in range(size[1])] for _ in range(size[0])])
+        # boundary values matter (random() may return exactly 0.0): mix them in
+        def one():
+            u = self.fallback.random()
+            return 0.0 if u < 0.2 else self.fallback.random()
+        return np.array([[one() for _ in range(size[1])] for _ in range(size[0])]).reshape(tuple(size))
 
     def shuffle(self, x):
         v = self._next('shuffle')
@@ -202,7 +206,7 @@ def decode(j):
     if 'Observation' in j:
         return Observation(decode(j['Observation']['grid']), decode(j['Observation']['agent']))
     if 'Rng' in j:
-        return ScriptedRng(j['Rng'])
+        return ScriptedRng(j['Rng'], fallback_seed=j.get('salt', 0))
     if 'fn' in j:
         ret = j['ret'] if isinstance(j['ret'], str) else tuple(j['ret'])
         return ScriptedFn(ret, j['fn'], seed=len(json.dumps(j)) + j.get('salt', 0))
@@ -221,6 +225,13 @@ def decode(j):
         return o
     if 'token' in j:
         return StubToken(j['token'], 0)
+    if 'BoolArr' in j or 'IntArr' in j:
+        import numpy as np
+        k = 'BoolArr' if 'BoolArr' in j else 'IntArr'
+        return np.array(j[k], dtype=bool if k == 'BoolArr' else int).reshape(tuple(j['shape']))
+    if 'NextPosFn' in j:
+        import gym_gridverse.envs.visibility_functions as vf
+        return getattr(vf, j['NextPosFn'])
     if 'ObjPred' in j:
         import pyvc_rt
         allowed = [decode(x) for x in j['ObjPred']]
@@ -356,9 +367,16 @@ def rand_input(sort, r, ctx=None):
         return {sort: {'grid': g, 'agent': {'Agent': {'position': pos, 'orientation': rand_input('Orientation', r),
                                                       'grid_object': item}}}}
     if sort == 'Rng':
-        return {'Rng': []}
+        return {'Rng': [], 'salt': r.randint(0, 10 ** 6)}
     if sort == 'VisFn':
         return {'VisFn': [], 'salt': r.randint(0, 10 ** 6)}
+    if sort in ('BoolArr', 'IntArr'):
+        h, w = r.randint(1, 4), r.randint(1, 4)
+        if sort == 'BoolArr':
+            return {sort: [[r.random() < 0.4 for _ in range(w)] for _ in range(h)], 'shape': [h, w]}
+        return {sort: [[r.randint(0, 3) for _ in range(w)] for _ in range(h)], 'shape': [h, w]}
+    if sort == 'NextPosFn':
+        return {'NextPosFn': '_partially_occluded_next_positions_front_' + r.choice(['left', 'right'])}
     if sort == 'ObjPred':
         # a type/colour space: flat objects of some classes and colours (+ open variant of every door), boxes of them
         classes = r.sample(['NoneGridObject', 'Hidden', 'Floor', 'Wall', 'Exit', 'Door', 'Key', 'MovingObstacle',
@@ -501,6 +519,8 @@ def run_contract(spec, inputs_json, only=None):
     if isinstance(stubs, (list, tuple)):
         stubs = {s_: None for s_ in stubs}
     for sname, ret in stubs.items():
+        if isinstance(ret, (list, tuple)) and ret and ret[0] == 'native-real':
+            continue  # natively the real callee runs
         patches.extend(install_stub(st, sname, ret, inputs_json))
     try:
         st.result = target(*args, **kwargs)
@@ -576,6 +596,18 @@ def cmd_replay(path):
     print(json.dumps(res))
 
 
+def correlate(inputs, spec, r):
+    """make independent random inputs fit together more often (a position inside the grid it refers to)"""
+    g = inputs.get('grid') or inputs.get('self') or inputs.get('g')
+    if isinstance(g, dict) and 'Grid' in g:
+        h, w = len(g['Grid']), len(g['Grid'][0])
+        for p, s_ in spec.args.items():
+            if s_ == 'Position' and r.random() < 0.8:
+                inputs[p] = {'Position': [r.randint(0, h - 1), r.randint(0, w - 1)]}
+        if 'position' in inputs and spec.name.startswith('v_partially') and r.random() < 0.8:
+            inputs['position'] = {'Position': [h - 1, r.randint(0, w - 1)]}
+
+
 def cmd_crosscheck(module, n, seed, names):
     import pyvc_rt
     importlib.import_module(module)
@@ -591,6 +623,7 @@ def cmd_crosscheck(module, n, seed, names):
         while stats['pre_ok'] < n and tries < n * 20:
             tries += 1
             inputs = {p: rand_input(s, r) for p, s in spec.args.items()}
+            correlate(inputs, spec, r)
             res = run_contract(spec, inputs)
             stats['runs'] += 1
             if res.get('contract_error'):
